@@ -325,6 +325,7 @@ INHERITED = {
 # See also https://lists.w3.org/Archives/Public/www-style/2012Jun/0066.html
 # Only non-inherited properties need to be included here.
 TABLE_WRAPPER_BOX_PROPERTIES = {
+    'anchor',
     'bottom',
     'break_after',
     'break_before',
